@@ -447,6 +447,14 @@ def run(facts, R):
                 s = s or Sym(b)
                 if render(s.op(t["args"][0])).endswith(".writer"):
                     n_lockers += 1
+                    if b.path not in WRITER_LOCKERS and getattr(b, "changed", False):
+                        # a locker the table does not know (code moved): harmless to framing iff it writes nothing, itself or
+                        # through a helper, and sends no WebSocket message
+                        w = [t2["callee"]["name"] for _, t2 in b.calls() if is_write_prim(t2) or (t2["callee"]["name"] in ("send", "feed", "start_send") and "Sink" in (t2["callee"].get("trait") or ""))]
+                        R.check(not w, "one-lock-per-frame", b.path, "writer-lock site",
+                                "unlisted function takes the client's writer lock and writes through %s (outside the one-frame critical section of write_request)" % w,
+                                t.get("span"), "takes the lock but writes nothing")
+                        continue
                     R.check(b.path in WRITER_LOCKERS, "one-lock-per-frame", b.path, "writer-lock site",
                             "unlisted function takes the client's writer lock (may write outside the one-frame critical section)", t.get("span"),
                             WRITER_LOCKERS.get(b.path))
